@@ -87,6 +87,10 @@ def check_program(prog, cap):
                 problems.append(('statement-split-by-comprehension',
                                  'read %s at %s follows a comprehension inside a statement that rebinds it; supp lists %s, run time %s' % (name, pos, sorted(alts), s)))
                 continue
+            if s not in alts and dyn_common.in_finally_reached_by_return(d.tree, pos):
+                problems.append(('finally-reached-through-return',
+                                 'read %s at %s sits in a finally block that a return statement of the try statement jumps to; run time %s, supp %s' % (name, pos, s, sorted(alts))))
+                continue
             if s not in alts:
                 problems.append(('definition-missing:%s:%s' % (kind, ctx),
                                  'read %s at %s obtains the value bound at %s (%s) in some execution; names_at lists %s' % (
@@ -105,7 +109,8 @@ def check_program(prog, cap):
 
 KNOWN_SIGS = {'C02-annotation-after-binding': lambda sig: sig == 'annotation-evaluated-after-binding',
               'C02-conditional-walrus': lambda sig: sig == 'conditional-walrus-shadows-definition',
-              'C02-statement-split-by-comprehension': lambda sig: sig == 'statement-split-by-comprehension'}
+              'C02-statement-split-by-comprehension': lambda sig: sig == 'statement-split-by-comprehension',
+              'C02-finally-after-return': lambda sig: sig == 'finally-reached-through-return'}
 _listed = {e['id'] for e in core.load_known(PROPERTY) if e.get('status') == 'finding'}
 KNOWN_SIGS = {k: v for k, v in KNOWN_SIGS.items() if k in _listed}
 KNOWN = {fid: (lambda v, p=pred: p(v['signature'])) for fid, pred in KNOWN_SIGS.items()}
